@@ -210,4 +210,19 @@ PROPS = {
         "components": {"real": ["sys.System incl. CachedLocations", "core", "cron.AddHooks"], "stub": STUB_COMMON + ["SimCron (persistent Cronner)"]},
         "assumptions": ["generated ids are compared as 'generated'", "the created-marker property is not searched for"],
     },
+    "C18": {
+        "level": "exploration",
+        "build": "plain",
+        "tiers": tiers(1200, 60, 40000, 900),
+        "rule": "a logical request history (facts/add get rem search, rules/add rem list enable disable, events/ingest, facts/query, admin/clear, plus requests that must fail: "
+                "missing or ill-typed parameters, unknown URI, failing operation) with strings that need URL/JSON/YAML escaping, rendered as query string, form body, "
+                "JSON body, /api/json envelope, YAML body, /api/yaml envelope, inside /api/sys/util/batch and as the generic request map, with and without /api and "
+                "version prefixes, bodies delivered in chunks of 1/7/64 bytes; each rendering drives its own engine through HTTPService.ServeHTTP while a twin "
+                "sys.System receives the direct calls. Judged: error-vs-success equals the direct call (failing requests must answer 400, never 200), "
+                "payloads (ids, facts, search bindings, rule lists, event values, query bindings) equal the direct result, and the final facts and rules of every "
+                "engine equal the twin's. Non-trivial: every request; distinct = distinct (operation, arguments) pairs. Apart from body chunking there is no "
+                "fault or schedule dimension in this property.",
+        "components": {"real": ["service.HTTPService.ServeHTTP, service.GetHTTPRequest, service.Service.ProcessRequest", "sys.System", "core"], "stub": STUB_COMMON + ["net/http server loop (handlers are called directly with httptest recorders)"]},
+        "assumptions": ["generated ids are compared as 'generated'"],
+    },
 }
